@@ -43,6 +43,60 @@ def all_costs_as_inputs(rng, p: dict) -> dict:
     return q
 
 
+COMPONENTS = [('Well Drilling and Completion Capital Cost', (2, 12)), ('Injection Well Drilling and Completion Capital Cost', (2, 12)),
+              ('Reservoir Stimulation Capital Cost', (0.5, 10)), ('Surface Plant Capital Cost', (5, 80)), ('Field Gathering System Capital Cost', (0.5, 8)),
+              ('Exploration Capital Cost', (0.5, 10)), ('Wellfield O&M Cost', (0.1, 2)), ('Surface Plant O&M Cost', (0.2, 4)), ('Water Cost', (0.01, 0.5))]
+CAPEX_ADJ = {'Well Drilling and Completion Capital Cost': 'Well Drilling and Completion Capital Cost Adjustment Factor',
+             'Injection Well Drilling and Completion Capital Cost': 'Injection Well Drilling and Completion Capital Cost Adjustment Factor',
+             'Reservoir Stimulation Capital Cost': 'Reservoir Stimulation Capital Cost Adjustment Factor',
+             'Surface Plant Capital Cost': 'Surface Plant Capital Cost Adjustment Factor',
+             'Field Gathering System Capital Cost': 'Field Gathering System Capital Cost Adjustment Factor'}
+EQUIPMENT = {5: [('Absorption Chiller Capital Cost', (1, 10)), ('Absorption Chiller O&M Cost', (0.05, 1))], 6: [('Heat Pump Capital Cost', (1, 10))],
+             7: [('Peaking Fuel Cost Rate', (0.01, 0.05))]}
+SCALED_B = [n for n, _ in COMPONENTS] + list(CAPEX_ADJ.values()) + ['Electricity Rate', 'Peaking Fuel Cost Rate', 'One-time Flat License Fees Etc',
+            'Annual License Fees Etc', 'One-time Grants Etc', 'Other Incentives', 'Tax Relief Per Year', 'Absorption Chiller Capital Cost',
+            'Absorption Chiller O&M Cost', 'Heat Pump Capital Cost']     # (the per-metre drilling cost is scaled through the well factor)
+
+
+def component_costs_as_inputs(rng, p: dict, through_factors: bool) -> dict:
+    """No user-fixed totals: every component of capital cost and O&M is an input.  With `through_factors` the four correlated capital
+    components (wells, stimulation, plant, gathering) are left to their correlations and scaled through their adjustment factors
+    instead (exploration and the O&M components stay direct inputs: their correlations are not linear in the other costs)."""
+    q = {k: v for k, v in p.items() if k not in dict(gen.FIXED_COMPONENTS) and k not in gen.ADJ_FACTORS}
+    for name, (lo, hi) in COMPONENTS:
+        if through_factors and name in CAPEX_ADJ:
+            q[CAPEX_ADJ[name]] = gen.fmt(rng.uniform(0.4, 2.0))
+        else:
+            q[name] = gen.fmt(rng.uniform(lo, hi))
+    for name, (lo, hi) in EQUIPMENT.get(int(q.get('Power Plant Type', 0)), []):
+        q[name] = gen.fmt(rng.uniform(lo, hi))
+    q['Electricity Rate'] = gen.fmt(rng.uniform(0.03, 0.12))
+    if q.get('Power Plant Type') == 7:
+        q['Total District Heating Network Cost'] = 0
+        q['District Heating O&M Cost'] = 0
+    if through_factors:
+        q['Well Drilling Cost Correlation'] = rng.choice([1, 2, 3, 4, 5, 5, 6, 10, 14, 17])
+        if q['Well Drilling Cost Correlation'] == 5 or rng.random() < 0.3:
+            q['All-in Vertical Drilling Costs'] = gen.fmt(rng.uniform(500, 3000))
+        if rng.random() < 0.25:
+            q['Reservoir Depth'] = gen.fmt(rng.uniform(0.35, 0.49))     # shallow wells: the per-metre cost is used whatever the correlation
+            q['Gradient 1'] = gen.fmt(rng.uniform(150, 250))
+    if rng.random() < 0.5:
+        q['One-time Flat License Fees Etc'] = gen.fmt(rng.uniform(0, 5))
+        q['Annual License Fees Etc'] = gen.fmt(rng.uniform(0, 0.5))
+        q['One-time Grants Etc'] = gen.fmt(rng.uniform(0, 5))
+    q.pop('Surface Piping Length', None)
+    return q
+
+
+def scale_named(q: dict, names: list, k: float) -> dict:
+    s = dict(q)
+    for name in names:
+        if name in s:
+            s[name] = repr(float(s[name]) * k)
+    return s
+
+
 def scale_costs(q: dict, k: float) -> dict:
     s = dict(q)
     for name in COSTS_TO_SCALE:
@@ -80,6 +134,18 @@ def run(tier: str) -> int:
         ks = [1.0] + sorted(rng.sample([0.5, 2.0, 3.7, 0.25], 2))
         ks = [x for x in ks if float(q['Total Capital Cost']) * x <= 1000 and float(q['Total O&M Cost']) * x <= 100 and float(q['Electricity Rate']) * x <= 1]
         L.add('C11_homog', 'scaled', LC, [(x, gen.to_text(scale_costs(q, x))) for x in ks], {'relation': 'costs x k', 'base': tag})
+        # --- the same through the components (no user-fixed totals), directly or through the capital-cost adjustment factors
+        for through in ((False, True) if k % 2 == 0 else (True,)):
+            if through and int(p.get('Power Plant Type', 0)) == 7:
+                continue        # the peaking boiler is costed by a correlation without an adjustment factor
+            qc = component_costs_as_inputs(rng, p, through)
+            kc = [1.0] + sorted(rng.sample([0.5, 2.0, 3.0, 0.25], 2))
+            kc = [x for x in kc if all(float(qc[n_]) * x <= lim for n_, lim in (('Surface Plant Capital Cost', 1000), ('Electricity Rate', 1),
+                                                                               ('Surface Plant Capital Cost Adjustment Factor', 10),
+                                                                               ('Well Drilling and Completion Capital Cost Adjustment Factor', 10),
+                                                                               ('Well Drilling and Completion Capital Cost', 200)) if n_ in qc)]
+            L.add('C11_homog', 'scaled', LC, [(x, gen.to_text(scale_named(qc, SCALED_B, x))) for x in kc],
+                  {'relation': 'component costs x k' + (' (capital components through adjustment factors)' if through else ''), 'base': tag})
         # --- prices: raise start and end price of every product together
         d = rng.choice([0.01, 0.03, 0.08])
         up = dict(p)
